@@ -450,7 +450,9 @@ def r08_5(ctx: Ctx) -> None:
         """path of the body of the section the generic header h belongs to ('?' if not recognised)"""
         if not isinstance(h, ElemSym):
             return "?"
-        src = h.source
+        src = T.unwrap(h.source, names=("list", "tuple"))
+        if isinstance(src, CompSym) and isinstance(src.elt, ElemSym):
+            return own_body(src.elt)                 # a comprehension that only selects / flattens: its generic element is the inner generic element
         if isinstance(src, AttrSym) and src.path == f"{me}.rtf_column_header":
             return "single-or-flat"
         zp = _zip_partner(src)
